@@ -5,5 +5,5 @@ META = {
             'Reloading is generic (class registry by name, dataclass fields, string sniffing), so a colliding token text or a non-init-able field breaks only grammars that '
             'contain it.',
     'note': 'json/pickle are C-level and run on concrete models; the symbolic dimension is the input text. Known finding F6 (strings that look like styles) identified by the '
-            'leading characters of the string.',
+            'leading characters of the string. Variants per model: JSON, pickle of a fresh model, pickle of a model that has parsed, Python model source; each must also print as the original.',
 }
